@@ -69,6 +69,7 @@ int save_context (error_context_t * econ) {
   econ->save_command_giver = command_giver;
   econ->save_sp = sp;           /* stack pointer */
   econ->save_csp = csp;         /* control stack pointer */
+  save_object_limits (&econ->save_load_depth, &econ->save_restrict_destruct);
   econ->save_context = current_error_context;
 
   current_error_context = econ;
@@ -121,6 +122,8 @@ void pop_context (error_context_t * econ) {
 void restore_context (error_context_t * econ) {
 
   command_giver = econ->save_command_giver;
+  /* error_handler() cleared the guards (throw_error() left them as they were): put back the values of the save point */
+  restore_object_limits (econ->save_load_depth, econ->save_restrict_destruct);
   DEBUG_CHECK (csp < econ->save_csp, "csp is below econ->csp before unwinding.\n");
   if (csp > econ->save_csp)
     {
